@@ -54,7 +54,39 @@ REQ = {'receive': int(F.REQ_RECEPTION_REPORT), 'forward': int(F.REQ_FORWARDING_R
 FIELD = {'receive': 'received', 'forward': 'forwarded', 'deliver': 'delivered', 'delete': 'deleted'}
 
 
-def new_agent(rx_routes, mtu=None, tx=True):
+class VClock(object):
+    '''A virtual wall clock put in place of the datetime module seen by bp.agent and bp.util (both read the time as
+    datetime.datetime.now(tz)), so that time spent between two steps of the processing is under the harness's control.'''
+    def __init__(self):
+        self.t = datetime.datetime(2026, 1, 1, 12, 0, 0, tzinfo=datetime.timezone.utc)
+        clock = self
+
+        class _DT(datetime.datetime):
+            @classmethod
+            def now(cls, tz=None):
+                return clock.t
+        self.shim = type('datetime_shim', (), {'datetime': _DT, 'timezone': datetime.timezone,
+                                               'timedelta': datetime.timedelta, 'date': datetime.date})
+
+    def advance(self, ms):
+        self.t = self.t + datetime.timedelta(milliseconds=ms)
+
+    def dtn(self):
+        return DtnTimeField.datetime_to_dtntime(self.t)
+
+    def __enter__(self):
+        import bp.util
+        self.saved = (bp.agent.datetime, bp.util.datetime)
+        bp.agent.datetime = self.shim
+        bp.util.datetime = self.shim
+        return self
+
+    def __exit__(self, *a):
+        import bp.util
+        bp.agent.datetime, bp.util.datetime = self.saved
+
+
+def new_agent(rx_routes, mtu=None, tx=True, on_send=None):
     cfg = Config()
     cfg.node_id = 'dtn://me/'
     cfg._bus_conn = dbus.bus.BusConnection()
@@ -66,7 +98,11 @@ def new_agent(rx_routes, mtu=None, tx=True):
         serv_name = 'x'
 
         def send_bundle_func(self, raw):
-            return lambda data: sent.append(bytes(data))
+            def send(data):
+                sent.append(bytes(data))
+                if on_send:
+                    on_send(bytes(data))
+            return send
     ag._cl_agent['udpcl'] = FakeCl()
     for pat, action in rx_routes:
         cfg.rx_route_table.append(RxRouteItem(eid_pattern=re.compile(pat), action=action))
@@ -285,6 +321,37 @@ def c11(fails, stats, tier):
             C8.check_output_bundle(out_raw, case, probe)
             if probe:
                 fails.append({'check': 'F-crc', 'case': case, 'got': probe[0]})
+    # time spent waiting in the node counts: bursts received in one loop iteration, under a virtual clock which the
+    # harness advances between reception and the forwarding pass and at every hand-over to the convergence layer
+    for n_burst, wait_ms, send_ms in itertools.product((1, 3), (0, 1500), (0, 800)):
+        stats['evaluations'] += 1
+        case = {'scenario': 'forward-burst', 'bundles': n_burst, 'wait_before_forwarding_ms': wait_ms, 'send_takes_ms': send_ms}
+        with VClock() as clk:
+            left_at = []
+
+            def on_send(raw, clk=clk, left_at=left_at, send_ms=send_ms):
+                left_at.append(clk.dtn())
+                clk.advance(send_ms)
+            ag, sent, fin = new_agent([(r'.*', 'forward')], on_send=on_send)
+            created = clk.dtn() - 5000
+            try:
+                for i in range(n_burst):
+                    ag.recv_bundle(BundleContainer(Bundle(mk(dtn=created, seq=i, flags=0, report_to='dtn:none'))))
+                clk.advance(wait_ms)
+                GLib.pump_idle(300)
+            except Exception as e:  # noqa
+                fails.append({'check': 'F-exception', 'case': case, 'got': '%s: %s' % (type(e).__name__, e)})
+                continue
+            data, _r = split_out(sent)
+            if len(data) != n_burst:
+                fails.append({'check': 'F-not-forwarded-once', 'case': case, 'got': len(data)})
+                continue
+            for (out_raw, out), t_left in zip(data, left_at):
+                ages_out = [b.payload.age for b in out.blocks if b.type_code == 7]
+                if len(ages_out) != 1 or abs(ages_out[0] - (t_left - created)) > 1:
+                    fails.append({'check': 'F-bundle-age-at-departure', 'case': case, 'got': ages_out,
+                                  'ms_since_creation_when_it_left': t_left - created})
+                    break
 
 
 # ---------------------------------------------------------------------------------------------------------- C19
@@ -338,7 +405,8 @@ def c19(fails, stats, tier):
                             rep.subj_ts.getfieldval('dtntime') != 1000 or rep.subj_ts.seqno != 7:
                         fails.append({'check': 'S-addressing-or-subject', 'case': case, 'dest': b.primary.destination})
                         continue
-                    times = {k: getattr(rep.status, FIELD[k]).at for k in want}
+                    # the encoded item, not the attribute view (which shows DTN time 0 as None)
+                    times = {k: getattr(rep.status, FIELD[k]).getfieldval('at') for k in want}
                     if with_time and any(t is None for t in times.values()) or not with_time and any(t is not None for t in times.values()):
                         fails.append({'check': 'S-status-time', 'case': case, 'got': str(times)})
                         continue
